@@ -45,6 +45,9 @@ inductive Exit where
   | orthRFailed (iter : Nat)
   /-- `orthogonalizeInPlace(directions, …) != Success`: `break` -/
   | orthDFailed (iter : Nat)
+  /-- `DenseCholesky<Scalar> Bop(gramB)` did not report `Successful` (the Gram matrix of `[X R D]` is not numerically positive
+      definite): `m_info = NumericalIssue; break` -/
+  | gramFailed (iter : Nat)
   /-- inner `SymGEigsSolver` did not report `Successful`: `m_info = NoConvergence; break` -/
   | rrFailed (iter : Nat)
   /-- an exception left the inner solver (a numerical throw; the constructor guard `nev < ncv <= n` always holds now) and hence `compute()` -/
@@ -102,8 +105,12 @@ structure Kern (α V : Type) where
   orth : Stage → List V → List V → Option (List V)
   /-- `EigenSolver<Matrix>(X' * AX)`: real parts of eigenvalues and eigenvectors (columns), `none` if `info() != Success` -/
   eig0 : List V → List V → Option (List α × List (List α))
+  /-- Gram matrices + `DenseCholesky<Scalar> Bop(gramB)`: `Bop.info() == CompInfo::Successful` -/
+  gramSPD : RRIn α V → Bool
   /-- Gram matrices + `SymGEigsSolver<…, Cholesky>(…, m_nev, ncv)` with `ncv = innerNcv m_nev rows`, `init()`, `compute(SmallestAlge)` -/
   rr : RRIn α V → RROut α
+  /-- the guard in front of `m_info = Success`: `max |X' * BX - I| < sqrt(epsilon)` for the iterate `X` and the tracked `BX` -/
+  borth : List V → List V → Bool
 
 structure Cfg where
   n : Nat       -- m_n
@@ -225,9 +232,11 @@ def step (t : α) (iter : Nat) (s : St α V) (l : Loc V) : StepRes α V :=
       | none => .stop { s with resid := R, info := .numericalIssue } l0 (.orthDFailed iter)
       | some l1 =>
         let rows := c.nev + bs + (if iter > 0 then bs else 0)
-        if innerGuard c.nev rows = false then .stop { s with resid := R } l1 (.rrThrew iter)
+        let inp : RRIn α V := { iter := iter, X := s.X, R := R, D := l1.D, AR := AR, AD := l1.AD, BR := BR, BD := l1.BD, evals := s.evals }
+        if K.gramSPD inp = false then .stop { s with resid := R, info := .numericalIssue } l1 (.gramFailed iter)
+        else if innerGuard c.nev rows = false then .stop { s with resid := R } l1 (.rrThrew iter)
         else
-          match K.rr { iter := iter, X := s.X, R := R, D := l1.D, AR := AR, AD := l1.AD, BR := BR, BD := l1.BD, evals := s.evals } with
+          match K.rr inp with
           | .threw => .stop { s with resid := R } l1 (.rrThrew iter)
           | .notConverged => .stop { s with resid := R, info := .noConvergence } l1 (.rrFailed iter)
           | .ok θ0 C0 =>
@@ -250,11 +259,14 @@ def loop (t : α) : Nat → Nat → St α V → Loc V → St α V × Loc V × Ex
     | .stop s' l' e => (s', l', e)
     | .cont s' l' => loop t fuel (iter + 1) s' l'
 
-/-- the code after the loop: last residuals, convergence test, `m_info = Success` if every column passes -/
+/-- the code after the loop: last residuals, convergence test; if every column passes, `m_info = Success` provided the iterate is
+    still B-orthonormal (`max |X' * BX - I| < sqrt(epsilon)`: the residual test means nothing for a collapsed or blown-up block),
+    `NumericalIssue` otherwise — this overrides the `Success` the `BlockSize == 0` exit of the loop has just written -/
 def finalize (t : α) (s : St α V) (l : Loc V) : St α V :=
   let W := residual l.AX l.BX s.evals
   let del := delCols K c t W
-  if c.nev - del.length = 0 then { s with resid := W, info := .success } else { s with resid := W }
+  if c.nev - del.length = 0 then { s with resid := W, info := if K.borth s.X l.BX then .success else .numericalIssue }
+  else { s with resid := W }
 
 /-- result of `compute(maxit, tol_div_n)`: the object state, the locals at the end, how the loop ended, whether an exception
     left `compute()` (then the code after the loop did not run) -/
@@ -308,6 +320,19 @@ def spApply (rows : Array (List (Nat × α))) (v : Col α) : Col α :=
 /-- the explicit loop of `checkConvergence_getBlocksize`: `sum = 0; for iRow: sum += b*b; sqrt(sum) < t` -/
 def colBelow (t : α) (v : Col α) : Bool :=
   Sc.lt (Sc.sqrt (v.d.foldl (fun s b => s + b * b) (Lin.zero : α))) t
+
+/-- entry `(i, j)` of `Matrix(X.transpose() * BX)`: Eigen's sparse product accumulates `0 + Σ_k X(k,i) * BX(k,j)` in ascending `k`
+    (structurally absent entries contribute nothing; an explicit zero contributes `±0`, which changes no finite sum) -/
+def gramEntry (x bx : Col α) : α :=
+  (List.range x.d.size).foldl (fun acc k => acc + Lin.vget x.d k * Lin.vget bx.d k) (Lin.zero : α)
+
+/-- `(Matrix(X' * BX) - Identity(nev, nev)).cwiseAbs().maxCoeff() < thr` for finite entries: every entry of `|X'BX - I|` is
+    below `thr` (`thr = sqrt(NumTraits<Scalar>::epsilon())`, computed by the real code and handed over in the request) -/
+def gramOrthOk (thr : α) (X BX : List (Col α)) : Bool :=
+  (List.range X.length).all (fun i => (List.range BX.length).all (fun j =>
+    match X[i]?, BX[j]? with
+    | some x, some bx => Sc.lt (Sc.abs (gramEntry x bx - (if i = j then (Lin.one : α) else Lin.zero))) thr
+    | _, _ => false))
 end col
 
 end Lobpcg
